@@ -158,6 +158,8 @@ pub struct BackendBlock {
     pub prologue: Option<String>,
     pub epilogue: Option<String>,
     pub braced: bool,
+    /// Further `(is_prologue, text)` entries of a braced block, after the first ones.
+    pub more: Vec<(bool, String)>,
 }
 
 #[derive(Clone, Debug, PartialEq, Eq)]
@@ -564,6 +566,10 @@ impl Project {
                         }
                         if let Some(e) = &b.epilogue {
                             let _ = writeln!(s, "    epilogue r#\"\n{e}\n\"#;");
+                        }
+                        for (is_prologue, t) in &b.more {
+                            let kind = if *is_prologue { "prologue" } else { "epilogue" };
+                            let _ = writeln!(s, "    {kind} r#\"\n{t}\n\"#;");
                         }
                         s.push_str("}\n");
                     } else if let Some(p) = &b.prologue {
@@ -1441,11 +1447,27 @@ pub fn gen_valid(rng: &mut Rng, cfg: &GenCfg, ptr: usize) -> Project {
                     }
                     _ => name.to_string(),
                 };
+                // A braced block may hold several prologues and epilogues.
+                let mut more = vec![];
+                if braced && g.rng.chance(1, 4) {
+                    for j in 0..g.rng.range(1, 3) {
+                        let is_prologue = g.rng.chance(1, 2);
+                        more.push((
+                            is_prologue,
+                            format!(
+                                "pub const MORE_{}_{}_{m}_{k}_{j}: u32 = {j};",
+                                if is_prologue { "PROLOGUE" } else { "EPILOGUE" },
+                                name.to_uppercase()
+                            ),
+                        ));
+                    }
+                }
                 g.p.modules[m].backends.push(BackendBlock {
                     name,
                     prologue,
                     epilogue,
                     braced,
+                    more,
                 });
                 order.push(Decl::Backend(k));
             }
